@@ -7,6 +7,7 @@ import (
 	"bytes"
 	"encoding/json"
 	"fmt"
+	"io"
 	"math"
 	"math/rand"
 	"os"
@@ -490,7 +491,57 @@ func c18Valid(input sx.S) bool {
 // overflow) or a hang can only be observed from outside, so every case is also run in a child
 // process when its size or nesting is large.
 
-func c03Entry(entry string, data string) (class string, detail sx.S) {
+// c03Reader: how the bytes reach the library.  "" = the String entry points; r1 = a reader that
+// returns io.EOF together with the last bytes (as an HTTP body with Content-Length does); r2 = one
+// byte per Read; r3kN = a reader that fails with an error after N bytes (mid-stream)
+type c03Reader struct {
+	data []byte
+	mode string
+	fail int
+	pos  int
+}
+
+func newC03Reader(data string, mode string) *c03Reader {
+	r := &c03Reader{data: []byte(data), mode: mode, fail: -1}
+	if strings.HasPrefix(mode, "r3k") {
+		r.fail, _ = strconv.Atoi(mode[3:])
+		r.mode = "r3"
+	}
+	return r
+}
+
+func (r *c03Reader) Read(p []byte) (int, error) {
+	if len(p) == 0 {
+		return 0, nil
+	}
+	rest := r.data[r.pos:]
+	if r.mode == "r3" && r.pos >= r.fail {
+		return 0, fmt.Errorf("reader failed mid-stream")
+	}
+	if len(rest) == 0 {
+		return 0, io.EOF
+	}
+	n := len(rest)
+	if n > len(p) {
+		n = len(p)
+	}
+	switch r.mode {
+	case "r2":
+		n = 1
+	case "r3":
+		if r.pos+n > r.fail {
+			n = r.fail - r.pos
+		}
+	}
+	copy(p, rest[:n])
+	r.pos += n
+	if r.mode == "r1" && r.pos == len(r.data) {
+		return n, io.EOF
+	}
+	return n, nil
+}
+
+func c03Entry(entry string, data string, mode string) (class string, detail sx.S) {
 	defer func() {
 		if r := recover(); r != nil {
 			class, detail = "panic", sx.Hex(fmt.Sprint(r))
@@ -498,14 +549,26 @@ func c03Entry(entry string, data string) (class string, detail sx.S) {
 	}()
 	switch entry {
 	case "value":
-		v, err := ggql.ParseValueString(data)
+		var v interface{}
+		var err error
+		if mode == "" {
+			v, err = ggql.ParseValueString(data)
+		} else {
+			v, err = ggql.ParseValue(newC03Reader(data, mode))
+		}
 		if err != nil {
 			return "error", "-"
 		}
 		return "ok", pvOf(v)
 	case "sdl":
 		root := ggql.NewRoot(nil)
-		if err := root.ParseString(data); err != nil {
+		var err error
+		if mode == "" {
+			err = root.ParseString(data)
+		} else {
+			err = root.ParseReader(newC03Reader(data, mode))
+		}
+		if err != nil {
 			return "error", "-"
 		}
 		_ = root.SDL(true, true)
@@ -518,10 +581,19 @@ func c03Entry(entry string, data string) (class string, detail sx.S) {
 		root := ggql.NewRoot(&execSchemaObj{w: w, q: 1, m: -1})
 		_ = root.ParseString("type Query { f1: T20 f2(a1: Int!, a2: [String], a3: T40): Int } type T20 { f3: String f1: T20 f4: [T20] } input T40 { a1: Int! a2: [T40] }")
 		// request parsing and printing of whatever the reader returned, then resolution
-		if exe, _ := root.ParseExecutableString(data); exe != nil {
-			_ = exe.String()
+		vars := map[string]interface{}{"v1": 1, "v2": nil, "v3": []interface{}{"x", 2}}
+		var res map[string]interface{}
+		if mode == "" {
+			if exe, _ := root.ParseExecutableString(data); exe != nil {
+				_ = exe.String()
+			}
+			res = root.ResolveString(data, "", vars)
+		} else {
+			if exe, _ := root.ParseExecutableReader(newC03Reader(data, mode)); exe != nil {
+				_ = exe.String()
+			}
+			res = root.ResolveReader(newC03Reader(data, mode), "", vars)
 		}
-		res := root.ResolveString(data, "", map[string]interface{}{"v1": 1, "v2": nil, "v3": []interface{}{"x", 2}})
 		var b bytes.Buffer
 		_ = ggql.WriteJSONValue(&b, res, 2)
 		if _, has := res["errors"]; has {
@@ -536,10 +608,17 @@ func c03Exec(input sx.S) sx.S {
 	l := sx.List(input)
 	entry := l[1].(string)
 	data := sx.Str(l[2])
-	child := (len(l) > 3 && l[3].(string) == "child") || entry != "value"
+	child, mode := entry != "value", ""
+	for _, f := range l[3:] {
+		if f.(string) == "child" {
+			child = true
+		} else {
+			mode = f.(string) // reader mode: r1, r2, r3kN
+		}
+	}
 	if child {
 		// run in a child process: fatal errors and hangs become observable
-		cmd := exec.Command(os.Args[0], "c03child", entry)
+		cmd := exec.Command(os.Args[0], "c03child", entry, mode)
 		cmd.Stdin = strings.NewReader(data)
 		var out bytes.Buffer
 		cmd.Stdout = &out
@@ -565,7 +644,7 @@ func c03Exec(input sx.S) sx.S {
 	}
 	ch := make(chan result, 1)
 	go func() {
-		c, d := c03Entry(entry, data)
+		c, d := c03Entry(entry, data, mode)
 		ch <- result{c, d}
 	}()
 	select {
@@ -586,9 +665,9 @@ func childTimeout(n int) time.Duration {
 	return 3 * time.Second
 }
 
-func c03ChildMain(entry string) {
+func c03ChildMain(entry string, mode string) {
 	data, _ := os.ReadFile("/dev/stdin")
-	c, _ := c03Entry(entry, string(data))
+	c, _ := c03Entry(entry, string(data), mode)
 	fmt.Println(c)
 }
 
@@ -601,7 +680,10 @@ fragment F on T20 { f3 f1 { f3 } }`, `{ f1 { f3 f4 { f3 } } }`, `mutation M { f1
 		`query($a:){f1{f3}}`, `{f1{...F}} fragment F on T20 {f3 ...F}`, `{f1{...F}} fragment F on T20 {f3 f1 { ...G }} fragment G on T20 { f1 { ...F } }`,
 		`{ f2(a1: 1, a2: $v3) }`, `{ f2 }`, `{ f2(a1: null) }`, `{ f2(a1: "s") }`, `{ f2(a1: 4294967297) }`,
 		`query($a: [Int!]! = [1]) { f1 { ... on T20 @skip(if: false) { f3 } ... @include(if: true) { f3 } } }`,
-		`subscription S { f1 { f3 } }`, `{ f2(a1: [1], a2: {a: 1}, a3: E) }`, `{ f2(a1: 1, a3: {a1: 1, a2: [{a1: $v1}, null]}) }`},
+		`subscription S { f1 { f3 } }`, `{ f2(a1: [1], a2: {a: 1}, a3: E) }`, `{ f2(a1: 1, a3: {a1: 1, a2: [{a1: $v1}, null]}) }`,
+		// fragments that reach themselves only through an inline fragment, a field, a list, one another
+		`{ ...A } fragment A on Query { f1 { f3 } ... on Query { ...A } }`, `{f1{...F}} fragment F on T20 { f3 ... { ...F } }`,
+		`{f1{...F}} fragment F on T20 { f4 { ... on T20 { f1 { ...F } } } }`, `{f1{...F}} fragment F on T20 { ... on T20 { ...G } } fragment G on T20 { ... { ...F } }`},
 }
 
 // tokens the token-level mutator inserts
@@ -688,6 +770,15 @@ func c03Gen(r *rand.Rand, tier string) []Case {
 		}
 		cases = append(cases, Case{ID: fmt.Sprintf("b%d", id), Input: in, Tags: append(tags, entry), Human: h})
 	}
+	addMode := func(entry, data, mode string) {
+		id++
+		in := sx.L("bytes", entry, sx.Hex(data), "child", mode) // a reader that misbehaves may make the library hang: always in a child
+		h := data
+		if len(h) > 120 {
+			h = h[:120] + "..."
+		}
+		cases = append(cases, Case{ID: fmt.Sprintf("b%d", id), Input: in, Tags: []string{"reader-" + mode[:2], "nontrivial", entry}, Human: h + "  (reader " + mode + ")"})
+	}
 	for _, entry := range []string{"value", "sdl", "exe"} {
 		for _, s := range c03Seeds[entry] {
 			add(entry, s, entry != "value", "seed", "nontrivial")
@@ -700,10 +791,32 @@ func c03Gen(r *rand.Rand, tier string) []Case {
 		if entry == "value" && r.Intn(3) == 0 {
 			s = safeSDL(genValue(r, 0, false))
 		}
+		var m string
 		if i%2 == 0 {
-			add(entry, mutateBytes(r, s), false, "mutated", "nontrivial")
+			m = mutateBytes(r, s)
+			add(entry, m, false, "mutated", "nontrivial")
 		} else {
-			add(entry, mutateTokens(r, s), false, "token-mutated", "nontrivial")
+			m = mutateTokens(r, s)
+			add(entry, m, false, "token-mutated", "nontrivial")
+		}
+		if i%5 == 0 {
+			// the same bytes through a reader: EOF delivered with the last bytes, one byte per Read, failing mid-stream
+			mode := []string{"r1", "r2", "r1", "r3k" + strconv.Itoa(r.Intn(len(m)+1))}[(i/5)%4]
+			addMode(entry, m, mode)
+		}
+	}
+	// every seed, and every seed cut short at every delimiter, through the EOF-with-the-last-bytes reader
+	for _, entry := range []string{"value", "sdl", "exe"} {
+		for _, s := range c03Seeds[entry] {
+			addMode(entry, s, "r1")
+			if tier == "thorough" || entry == "value" {
+				for i := 1; i < len(s); i++ {
+					if strings.ContainsRune("[{(,: ", rune(s[i-1])) {
+						addMode(entry, s[:i]+"@", "r1")
+						addMode(entry, s[:i], "r1")
+					}
+				}
+			}
 		}
 	}
 	// nesting bombs and long runs, in child processes (a stack overflow is fatal, not a panic)
@@ -733,6 +846,17 @@ func c03Valid(input sx.S) bool {
 	}
 	_ = sx.Str(l[2])
 	e := l[1].(string)
+	for _, f := range l[3:] {
+		fs := f.(string)
+		if fs != "child" && fs != "r1" && fs != "r2" && !strings.HasPrefix(fs, "r3k") {
+			return false
+		}
+		if strings.HasPrefix(fs, "r3k") {
+			if _, err := strconv.Atoi(fs[3:]); err != nil {
+				return false
+			}
+		}
+	}
 	return e == "value" || e == "sdl" || e == "exe"
 }
 
